@@ -70,6 +70,7 @@ COMPONENTS = {
     "simulated": [
         "disk of branch/repository (SimTransport over dromedary memory transport) and of the checkout's control files (sim+file://)",
         "one storage operation failing before it is applied (TransportError / OSError ENOSPC / PermissionDenied / ConnectionError)",
+        "one read of a user file by the commit builder (WorkingTree.get_file_with_stat) failing with NoSuchFile (the file vanished after iter_changes examined it)",
         "the user editing the tree (seeded treesim operations)",
         "process restart after a failed commit (fresh objects; left-over locks broken)",
         "clock of breezy.lockdir",
@@ -85,6 +86,7 @@ ASSUMPTIONS = [
     "commits run with explicit rev_id / timestamp / committer, allow_pointless=True, no pending merges (selected-file commits of merges are refused by design)",
     "set-up operations are not judged here (C09 does); if the real tree and the model disagree before a commit (probe presync_mismatch) the run stops without verdict",
     "fault model: exactly one storage operation (read or write, of the branch, the repository or the checkout's control files) raises before being applied; dirstate and user files have no seam; NoSuchFile is not injected (breezy legitimately reads it as 'absent')",
+    "reads of user files have no storage seam: the builder's get_file_with_stat is wrapped once per process and raises NoSuchFile at the armed call (quick: 2 sampled calls per target, thorough: all) without touching the disk; the commit must raise with nothing changed (and the retry must succeed), or succeed with the working tree's content - never record the basis content for a selected path",
     "after a failed commit a new process may have to break locks the failed one left (not judged here: C27); the retry runs after break_lock",
     "when the injected error is swallowed and commit returns normally, the success oracle applies",
     "every rewrite of a file changes its length; restoring the checkout from the pristine copy gives new inodes/ctimes, so the dirstate stat cache never vouches for a restored file wrongly",
@@ -733,7 +735,10 @@ def run_target(sim, plan, burl, root, m, op, cls, fault, label):
         pending = bool(pre_tree[1])
         tree = T.open_tree(root, "bzr")
         watch = OpWatch(sub, "/" + MASTER + "/" if getattr(burl, "master", None) else None)
-        sub.arm([fault] if fault else [])
+        read_fault = fault if (fault and fault.get("kind") == "read_err") else None
+        reads = {"calls": 0, "nth": read_fault["nth"] if read_fault else 0, "fired": False}
+        sub.c01_read = reads  # consulted by the get_file_with_stat wrapper (see warm())
+        sub.arm([fault] if (fault and not read_fault) else [])
         raised = None
         try:
             do_commit(tree, op)
@@ -741,15 +746,18 @@ def run_target(sim, plan, burl, root, m, op, cls, fault, label):
             raise
         except BaseException as e:  # noqa: B036 - Rust panics arrive as BaseException
             raised = e
+        sub.c01_read = None
         nops = sub.main_actor.nops
-        fired = bool(sub.faults_fired.get("err_before"))
+        fired = bool(sub.faults_fired.get("err_before")) or reads["fired"]
+        if reads["fired"]:
+            sub.faults_fired["read_err"] += 1
         sub.disarm()
         sub.monitors.remove(watch)
         del tree
-        extra.update(n=nops, ops=watch.ops, fired=fired)
-        fk = "err_before" if fired else "none"
-        k = fault["at"] if fault else 0
-        site = "%s:%s" % tuple(watch.ops[k - 1]) if fired and 0 < k <= len(watch.ops) else "fault-free"
+        extra.update(n=nops, ops=watch.ops, fired=fired, nreads=reads["calls"])
+        fk = "read_err" if reads["fired"] else "err_before" if fired else "none"
+        k = fault["at"] if (fault and not read_fault) else 0
+        site = "get_file_with_stat" if reads["fired"] else "%s:%s" % tuple(watch.ops[k - 1]) if fired and 0 < k <= len(watch.ops) else "fault-free"
         extra["site"] = site
         phase = watch.phase()
         sub.event("commit", label, "raised:" + type(raised).__name__ if raised is not None else "ok", site, phase)
@@ -947,13 +955,22 @@ def _execute(sim, plan):
         if only is not None or cls == "maybe":
             return
         ks = list(range(1, n + 1))
-        if getattr(sim, "tier", "quick") != "thorough" and n > 10:
-            ks = sorted(random.Random(plan["sample_seed"]).sample(ks, 10))
+        # the builder's reads of user files (no storage seam): -j = the j-th read fails
+        rks = [-j for j in range(1, dry.get("nreads", 0) + 1)]
+        if getattr(sim, "tier", "quick") != "thorough":
+            rr = random.Random(plan["sample_seed"])
+            if n > 10:
+                ks = sorted(rr.sample(ks, 10))
+            if len(rks) > 2:
+                rks = sorted(rr.sample(rks, 2), reverse=True)
+        ks = ks + rks
     else:
         ks = list(only)
     bad_points = []
     for k in ks:
         fault = {"kind": "err_before", "at": k, "count": "any", "err": plan.get("err", "transport")}
+        if k < 0:
+            fault = {"kind": "read_err", "nth": -k}
         res = point(fault, "k%d" % k)
         if res.get("verdict") == "violation":
             if findings.match(known, res.get("signature")) is not None:
@@ -1039,12 +1056,40 @@ WARM_OPS = [
 ]
 
 _warmed = []
+_read_hook = []
+
+
+def install_read_hook():
+    """Once per process: WorkingTree.get_file_with_stat (the commit builder's read of a user
+    file) counts its calls for the simulation that owns the thread and raises NoSuchFile at
+    the armed one (the file 'vanished' between iter_changes and the read; the disk is left
+    alone so that the retry meets the modelled tree)."""
+    if _read_hook:
+        return
+    _read_hook.append(1)
+    from breezy import transport as _mod_transport
+    from breezy import workingtree
+    from simkit.sim import CTX
+
+    orig = workingtree.WorkingTree.get_file_with_stat
+
+    def get_file_with_stat(self, path, *a, **kw):
+        st = getattr(getattr(CTX, "sim", None), "c01_read", None)
+        if st is not None:
+            st["calls"] += 1
+            if st["calls"] == st["nth"]:
+                st["fired"] = True
+                raise _mod_transport.NoSuchFile(path)
+        return orig(self, path, *a, **kw)
+
+    workingtree.WorkingTree.get_file_with_stat = get_file_with_stat
 
 
 def warm():
     storesim.warm()
     T.quiet()
     cosim.install_repo_tracker()
+    install_read_hook()
     if _warmed:
         return
     _warmed.append(1)
@@ -1058,7 +1103,7 @@ def warm():
     tmp = tempfile.mkdtemp(prefix="verif-warm-", dir="/dev/shm")
     _INPROC[0] = True
     try:
-        for j, (kind, only) in enumerate((("light", None), ("light", [3]), ("light", [40]), ("light", [60]), ("bound", None), ("bound", [70]), ("bound", [120]), ("bound", [150]))):
+        for j, (kind, only) in enumerate((("light", None), ("light", [3]), ("light", [-1]), ("light", [40]), ("light", [60]), ("bound", None), ("bound", [70]), ("bound", [120]), ("bound", [150]))):
             sc = os.path.join(tmp, "s%d" % j)
             os.makedirs(os.path.join(sc, "home"))
             os.environ.update(VERIF_SCRATCH=sc, BRZ_HOME=os.path.join(sc, "home"), HOME=os.path.join(sc, "home"))
